@@ -182,9 +182,10 @@ def do_bundle_budget(a, budget, n0, n1, i1):
         logix.Logix.MAX_BYTES = saved
 
 
-define(globals(), 'C07', 'bundle_reads_under_small_budget', AV + ['budget', 'n0', 'n1', 'i1'], "return do_bundle_budget([%s], budget, n0, n1, i1)" % ", ".join(AV),
-       [" and ".join('-32768 <= %s <= 32767' % a for a in AV), '1 <= budget <= 10 and 1 <= n0 <= %d and 1 <= n1 <= %d and 0 <= i1 <= %d' % (N, N, N - 1)],
-       timeout=3000, path_timeout=300, drives=DRIVES,
-       symbolic=['budget: the reply-size budget Logix.MAX_BYTES scaled down to 1..10 bytes (so fragments end inside the bundle)', 'n0, n1, i1', 'a0..a3'],
-       bounds='bundle [Read Tag Fragmented, Read Tag Fragmented, Read Tag] with a reply budget of 1..10 bytes: each embedded reply (status 0x00/0x06, data) '
+for _b in (1, 2, 3, 4, 5, 6, 8, 10):
+  define(globals(), 'C07', 'bundle_reads_under_budget_%d' % _b, AV + ['n0', 'n1', 'i1'], "return do_bundle_budget([%s], %d, n0, n1, i1)" % (", ".join(AV), _b),
+       [" and ".join('-32768 <= %s <= 32767' % a for a in AV), '1 <= n0 <= %d and 1 <= n1 <= %d and 0 <= i1 <= %d' % (N, N, N - 1)],
+       tier='quick' if _b in (2, 4, 5) else 'thorough', timeout=3000, path_timeout=300, drives=DRIVES,
+       symbolic=['n0, n1, i1', 'a0..a3'],
+       bounds='bundle [Read Tag Fragmented, Read Tag Fragmented, Read Tag] with the reply budget Logix.MAX_BYTES scaled down to %d bytes: each' % _b + ' embedded reply (status 0x00/0x06, data) '
               'equals the reply of the same request issued alone -- bundling does not shrink or grow a member\'s fragment', outside='')
